@@ -1373,6 +1373,11 @@ pub fn run(ctx: &mut Ctx) {
         (Codec::Varint(None), vec![300000, 300000]),
         (Codec::Varint(Some(70000)), vec![70000, 70000, 70000, 70000]),
         (Codec::Varint(Some(16384)), vec![16384; 17]),
+        // the window boundary falls inside a *small* message (or between its length prefix and its payload)
+        (Codec::Varint(None), vec![262100, 500, 7]),
+        (Codec::Varint(None), vec![262138, 3, 3]),
+        (Codec::Varint(None), vec![262139, 3, 3]),
+        (Codec::Varint(Some(1024)), vec![1000; 270]),
         (Codec::Identity(1024), vec![1024; 257]),
         (Codec::Identity(1023), vec![1023; 260]),
     ];
